@@ -4,22 +4,18 @@ import PV.C20.Lemmas.Accessors
   C20 — helper lemmas (the pieces live in `PV/C20/Lemmas/*.lean`; this file collects what
   `Thm.lean` uses).
 
-  Proof plan for the template splitter.  The Rust code is two-pass (find the closing brace with a
-  one-level nesting flag, then re-split the body at `:` outside brackets and at `!`); CPython is
-  one-pass.  `ConsStyle` removes accumulators and error payloads from the model (`specC`, `pibC`,
-  `MF`).  `SpecPhase`, `ConvPhase`, `FieldEq` run the domain automaton, the model and the reference
-  in lockstep over one field (`field_eq`).  `Literal`, `ModelDriver`, `SpecDriver` remove the fuel
-  of the three loops; `Canon`/`Template` give both drivers the same recursion equations
-  (plain character / doubled brace / field / single `}`) and conclude by induction on the length.
+  Template splitter (code as repaired in /repo commit eebce66: one-pass `parse_spec`).
+  `FieldEq`: the model's field-name loop, conversion step and spec loop accept exactly what CPython's
+  `parse_field` accepts (`field_eq`, all inputs).  `Literal`: `parse_literal` computes the maximal
+  literal run.  `ModelDriver`, `SpecDriver`: lengths decrease, so the fuel of the three loops is
+  irrelevant.  `Canon`/`Template`: both drivers satisfy the same recursion equations (plain character /
+  doubled brace / field / single `}`); induction on the length gives `parseM_eq_canonS`.
 
   Field names: `Integer` relates `usize::from_str` and `get_integer`, `Accessors` steps the two
   accessor loops in lockstep (same fuel on both sides).
 -/
 namespace PV.C20
 open Model Spec
-
-theorem accepted_eq_some {ε α} (x : Except ε α) (a : α) : accepted x = some a ↔ x = .ok a := by
-  cases x <;> simp
 
 theorem fieldname_main (decVal : Nat → Option Nat)
     (hdec : ∀ c, isAsciiDigit c = true → decVal c = some (c - 48))
